@@ -35,6 +35,8 @@ type e2eReq struct {
 	ValueLen int    `json:"valueLen"` // length of the No-Response option value: 0, 1 (legal) or 2 (illegal: the option is dropped on receipt); -1 = no option
 	Value    uint32 `json:"value"`
 	Code     int    `json:"code"` // what the handler answers
+	// Extra: elective options numbered above 258 that follow No-Response in the request
+	Extra []int `json:"extra,omitempty"`
 }
 
 type e2eScenario struct {
@@ -109,6 +111,9 @@ func execE2E(r *evid.Run) func(sc e2eScenario) *evid.Failure {
 						v[len(v)-1-k] = byte(q.Value >> (8 * uint(k)))
 					}
 					m.Opts = append(m.Opts, peer.Opt(258, v))
+				}
+				for _, x := range q.Extra {
+					m.Opts = append(m.Opts, peer.Opt(x, []byte{0xA1}))
 				}
 				w.ToLib(m)
 				bubble.Wait()
@@ -187,7 +192,11 @@ func execE2E(r *evid.Run) func(sc e2eScenario) *evid.Failure {
 				if q.ValueLen == 1 && q.Value != 0 {
 					key = fmt.Sprint(sc.Transport, q.Con, q.Value, q.Code)
 				}
-				r.Case("e2e", key, func() any { return sc }, "e2e/"+sc.Transport)
+				cls := []string{"e2e/" + sc.Transport}
+				if len(q.Extra) > 0 && q.ValueLen >= 0 {
+					cls = append(cls, "e2e/option-behind-no-response")
+				}
+				r.Case("e2e", key, func() any { return sc }, cls...)
 			}
 		}
 		return fail
@@ -205,6 +214,7 @@ func genE2E(t *rapid.T) e2eScenario {
 			Value:    uint32(rapid.OneOf(rapid.IntRange(0, 63), rapid.IntRange(0, 255), rapid.SampledFrom([]int{2, 8, 16, 26, 24, 10, 18, 255, 258, 0x1a1a})).Draw(t, "value")),
 			Code:     rapid.OneOf(rapid.IntRange(64, 191), rapid.SampledFrom([]int{65, 69, 95, 128, 132, 136, 157, 160, 165, 191, 64, 96, 192, 224})).Draw(t, "code"),
 		}
+		q.Extra = rapid.SampledFrom([][]int{nil, nil, {292}, {65000}, {292, 65000}}).Draw(t, "extra")
 		sc.Reqs = append(sc.Reqs, q)
 	}
 	return sc
